@@ -4,8 +4,8 @@ _PRIM = ['float', 'add', 'sub', 'mul', 'div', 'ltb', 'leb', 'eqb', 'abs', 'opp',
 _PRIMINT = ['int', 'lsr', 'lsl', 'land', 'lor', 'lxor', 'eqb', 'ltb', 'leb', 'add', 'sub', 'mul', 'div', 'mod',
             'compare', 'head0', 'tail0']
 # FloatAxioms of the standard library (link between the primitive operations and SpecFloat), used only by the
-# binary64 sign theorems C17_greedy_nonneg_f64 / C17_ls_deconv_nonneg_f64 / C17_f_ge0_reading
-_FLOAT_AXIOMS = ['div_spec', 'leb_spec', 'ltb_spec', 'eqb_spec']
+# binary64 theorems C17_greedy_nonneg_f64 / C17_ls_deconv_nonneg_f64 / C17_f_ge0_reading / C17_deconv_f64_all_inputs
+_FLOAT_AXIOMS = ['div_spec', 'leb_spec', 'ltb_spec', 'eqb_spec', 'add_spec', 'sub_spec', 'mul_spec']
 CFG = {
     'harness': 'phys',
     'model': 'c17',
@@ -42,7 +42,7 @@ CFG = {
         'powi(2) = x*x; no FMA contraction',
         'binned responses are taken from the hooks verif::wire_response()/pad_response() (binning and JSON parsing are not '
         'modelled); Cholesky step of the wire path only exercised (identity for single-wire blocks: measured bit for bit)',
-        'sign laws for binary64 are proved from the standard library FloatAxioms (div_spec, leb_spec, ltb_spec, eqb_spec); '
+        'sign and finiteness laws for binary64 are proved from the standard library FloatAxioms (add/sub/mul/div/leb/ltb/eqb_spec); '
         'IEEE law assumed, not discharged in Coq, when reading C17_scale_covariant for binary64: exactness of scaling by '
         '2^k absent overflow/underflow (measured per run)',
     ],
@@ -53,19 +53,22 @@ CFG = {
                   'least-squares selection equals the plain scheme bit for bit incl. the first-strict-minimum tie-break; '
                   '(3) never out of fuel, output length = input length for every sweep, all-zero for too-short waveforms, '
                   'and the selection returns the input length iff some residual is < +inf, else the EMPTY vector '
-                  '(binary64 witness: one sample -2^700); (4) every output is ge0 from three sign laws, which are proved for binary64 '
-                  '(no output of the float model is negative or -0 for ANY float input: NaN or sign bit clear); (5) exact scale '
-                  'covariance incl. all control decisions from op-level laws; (6) an isolated pulse a*R at k is recovered '
-                  'as exactly a at k, 0 elsewhere, residual 0, by the offset-0 sweep and by the whole wire selection '
-                  '(over Q: any response with 13 negative leading samples).',
-    'level_note': 'NOT proved: finiteness of the outputs for all f64 inputs and the 1e-6 recovery figure in binary64 (residual '
-                  'growth in the response tail has no useful a-priori bound) - both are measured by the harness on every run '
-                  '(rel17prop, rel17pulse). (5) is proved from arithmetic laws stated as Section hypotheses; they are proved '
-                  'satisfiable over Qc (any c > 0), and for binary64 they are assumed IEEE laws (scaling by 2^k exact '
-                  'absent overflow/underflow), with rel17scale measuring exactness per run. '
-                  'Multi-wire blocks (Cholesky of the cross-talk matrix) are outside the model; shape, finiteness and sign '
-                  'are measured (rel17block). trusted: Coq kernel incl. primitive floats; hand model tied by differential '
-                  'run; extraction (ExtrOcamlBasic, ExtrOCamlFloats); harness and driver',
+                  '(binary64 witness: one sample -2^700); (4) sign and finiteness from arithmetic laws that are PROVED for '
+                  'binary64 from the standard FloatAxioms: for ALL float waveforms, responses and grids the routine returns '
+                  'either no samples or one finite sample with clear sign bit per input sample '
+                  '(C17_deconv_f64_all_inputs); (5) exact scale covariance incl. all control decisions from op-level laws '
+                  '(satisfiable: every c > 0 over Q and over Q with +inf); (6) an isolated pulse a*R at k is recovered as '
+                  'exactly a at k, 0 elsewhere, residual 0, by the offset-0 sweep and by the whole wire selection (over Q: '
+                  'any response with 13 negative leading samples); one implementation observation re-evaluated inside Coq.',
+    'level_note': 'NOT proved: that an in-domain waveform never drives every residual to +inf/NaN (i.e. that the output is '
+                  'non-empty for calibrated samples), and the 1e-6 recovery figure in binary64 (residual growth in the response '
+                  'tail has no useful a-priori bound) - both are measured by the harness on every run (rel17prop, rel17pulse). '
+                  '(5) is proved from arithmetic laws stated as Section hypotheses; for binary64 they are assumed IEEE laws '
+                  '(scaling by 2^k exact absent overflow/underflow), with rel17scale measuring exactness per run, k in -20..=20. '
+                  'Multi-wire blocks (Cholesky of the cross-talk matrix) are outside the model; shape, finiteness, sign and '
+                  'exact block scaling are measured (rel17block). trusted: Coq kernel incl. primitive floats and the standard '
+                  'library FloatAxioms; hand model tied by differential run; extraction (ExtrOcamlBasic, ExtrOCamlFloats); '
+                  'harness and driver',
     'note': 'a difference between model and implementation is a waveform on which the production loop departs from the '
             'proved-equivalent plain greedy scheme (or a change of grid constants / response tables / float semantics)',
 }
